@@ -19,6 +19,7 @@ import (
 	"path/filepath"
 	"strings"
 	"testing"
+	"time"
 
 	vegeta "github.com/tsenart/vegeta/v12/lib"
 	"github.com/tsenart/vegeta/v12/verifshim/ev"
@@ -26,7 +27,7 @@ import (
 
 func TestC09(t *testing.T) {
 	R := ev.New("C09")
-	R.Rule = "crash points of a live attack command: for N in {3,8,20,40} requests and body sizes {0,300,5000}, at the entry of every request k the output file is decoded; distinct+non-trivial = (N, body size, k) with k >= 3 (a non-empty prefix is required)"
+	R.Rule = "crash points of a live attack command: for N in {3,8,20,40} requests and body sizes {0,300,5000}, at the entry of every request k the output file (which held a longer stream of an earlier run before the command started) is decoded; distinct+non-trivial = (N, body size, k) with k >= 3 (a non-empty prefix is required)"
 	R.Assume("the ordering argument needs workers = max-workers = 1; loopback HTTP through httptest")
 	for _, n := range ev.Pick([]int{3, 8, 20}, []int{3, 8, 20, 40, 100}) {
 		for _, bodyLen := range []int{0, 300, 5000} {
@@ -57,6 +58,18 @@ func c09Attack(t *testing.T, R *ev.Run, n, bodyLen int) {
 	if err := os.WriteFile(targets, []byte(tg.String()), 0o644); err != nil {
 		t.Fatal(err)
 	}
+	// the output path already holds the (longer) result stream of an earlier run
+	{
+		var old bytes.Buffer
+		enc := vegeta.NewEncoder(&old)
+		for i := 0; i < 2*n+3; i++ {
+			enc.Encode(&vegeta.Result{Attack: "c09", Seq: uint64(i), Code: 200, Timestamp: time.Now(), Latency: time.Millisecond, BytesIn: uint64(bodyLen),
+				Body: bytes.Repeat([]byte("b"), bodyLen), Method: "GET", URL: fmt.Sprintf("%s/%d", srv.URL, i+1)})
+		}
+		if err := os.WriteFile(out, old.Bytes(), 0o644); err != nil {
+			t.Fatal(err)
+		}
+	}
 	cmd := attackCmd()
 	done := make(chan error, 1)
 	go func() {
@@ -83,6 +96,11 @@ func c09Attack(t *testing.T, R *ev.Run, n, bodyLen int) {
 		if recs < k-2 {
 			R.Violation("cli:attack:results-held-back-in-a-buffer", map[string]any{"requests": n, "body_len": bodyLen, "at_request": k,
 				"encoded_for_certain": k - 2, "records_on_disk": recs, "bytes_on_disk": len(data)})
+		}
+		if recs > k-1 || (k == 1 && len(data) > 0) {
+			// only k-1 requests have completed: whatever else is in the file was not written by this attack
+			R.Violation("cli:attack:file-holds-records-this-attack-did-not-write", map[string]any{"requests": n, "body_len": bodyLen, "at_request": k,
+				"completed_requests": k - 1, "records_on_disk": recs, "bytes_on_disk": len(data)})
 		}
 		if !clean {
 			R.Violation("cli:attack:file-does-not-decode-to-a-prefix", map[string]any{"requests": n, "body_len": bodyLen, "at_request": k})
